@@ -244,7 +244,7 @@ class Gen:
         if "compiler" in a and not rejected:
             rejected, clean_src = True, src
         if callable_:
-            a["via"] = r.choice(["plain", "plain", "deco", "qlassfa"])
+            a["via"] = r.choice(["plain", "plain", "deco", "qlassfa", "qlassfa_shared"])
             kind = "compile_callable"
         else:
             a["via"] = "from_function" if r.random() < 0.2 else "qlassf"
@@ -301,6 +301,8 @@ class Gen:
             if not uses and r.random() < 0.5:
                 pass
         a = {"src": src, "via": "from_function" if via_ff else "qlassf", "defs": list(uses)}
+        if uses and r.random() < 0.08:
+            a["defs"] = a["defs"] + [a["defs"][0]]  # the same definition twice in one defs= list
         a.update(self.copts())
         self.note_name(cname, src)
         meta = {"id": "caller", "nargs": len(m["argsig"]), "in_bits": m.get("in_bits", 4), "ret_bool": m["retsig"] == "bool", "argsig": [[f"p{i}", t] for i, (_, t) in enumerate(m["argsig"])], "retsig": m["retsig"], "compiled": a["to_compile"]}
@@ -309,6 +311,21 @@ class Gen:
 
     def b_compile_param(self, s):
         r = self.r
+        if r.random() < 0.5:
+            # the generated family of the bind machine (loops, builtins, lookups, inner defs ...)
+            import m_c08
+
+            for _ in range(4):
+                gsrc, params, args, ret, tmpl, gdefs = m_c08.gen_g(r, self.pick_name())
+                if not gdefs:
+                    break
+            if not gdefs:
+                a = {"src": gsrc, "via": "qlassf", "defs": []}
+                a.update(self.copts())
+                name = progs.fname(gsrc)
+                self.note_name(name, gsrc)
+                self.add("compile_str", a, [], s, "unbound", {"params": [[n, f"Parameter[{t}]"] for n, t in params], "argsig": [[n, t] for n, t in args], "retsig": ret, "in_bits": 4, "nargs": len(args), "ret_bool": ret == "bool", "compiled": a["to_compile"]}, name, digest(gsrc, 8))
+                return True
         p = r.choice(progs.PARAM)
         src = p["src"]
         name = p["name"]
@@ -868,6 +885,10 @@ def _compile_callable(op, a, objs, tmpdir):
         text = hdr + "@qlassf\n" + a["src"]
     elif a["via"] == "qlassfa":
         text = hdr + f"@qlassfa(types={tlist}, defs=_defs, to_compile=_tc, uncompute=_un, bool_optimizer=_opt)\n" + a["src"]
+    elif a["via"] == "qlassfa_shared":
+        # one decorator factory object applied to two functions of the module
+        text = (hdr + f"_deco = qlassfa(types={tlist}, defs=_defs, to_compile=_tc, uncompute=_un, bool_optimizer=_opt)\n"
+                + "@_deco\ndef zz_first(zz_a: bool, zz_b: bool) -> bool:\n    return zz_a ^ zz_b\n" + "@_deco\n" + a["src"])
     else:
         text = hdr + a["src"]
     with open(path, "w") as f:
